@@ -2,6 +2,7 @@
 cases, samples) and what they judged (violations, skips, inconclusive notes)."""
 import hashlib
 import json
+import os
 from collections import Counter
 
 MAX_VIOL_PER_SHARD = 400
@@ -88,6 +89,7 @@ class Report:
                 "sig": jsonable(sig or {}),
                 "case": jsonable(case if case is not None else self.current_case),
                 "extra": jsonable(extra) if extra is not None else None,
+                "env": {"PYTHONHASHSEED": os.environ.get("PYTHONHASHSEED", "")},
             })
 
     def inconclusive(self, why):
